@@ -25,7 +25,7 @@ static void check_case(vg::Src& s, vh::Ctx& c)
         {
             auto spl = b.graph->make_spl(sc.k_is_array, sc.k, sc.karr, sc.m, sc.n, sc.tol, sc.default_tol);
         }
-        catch (const std::invalid_argument&)
+        catch (const std::exception&)  // "is rejected": any error type counts
         {
             threw = true;
         }
@@ -37,7 +37,7 @@ static void check_case(vg::Src& s, vh::Ctx& c)
         {
             spl->set_slope_exp(sc.n);
         }
-        catch (const std::invalid_argument&)
+        catch (const std::exception&)  // "is rejected": any error type counts
         {
             threw = true;
         }
@@ -84,10 +84,13 @@ static void check_case(vg::Src& s, vh::Ctx& c)
                     c.fail("lake-eroded", at + " lies at or below its lowest receiver (" + vg::fmt(fl) + ")");
                 continue;
             }
-            if (ei < -4e-16 * mag)
+            // (the erosion limiter places a node DBL_MIN above its floor: an absolute quantum of a
+            // few DBL_MIN is part of "rounding" for elevations in the subnormal range)
+            const double floor_q = 4 * DBL_MIN;
+            if (ei < -4e-16 * mag - floor_q)
                 c.fail("negative-erosion", at);
             double znew = r.z[i] - ei;
-            if (znew < fl - 4e-16 * mag)
+            if (znew < fl - 4e-16 * mag - floor_q)
                 c.fail("slope-reversed", at + ": new elevation " + vg::fmt(znew) + " is below the lowest post-erosion receiver elevation " + vg::fmt(fl));
             if (ei > 0)
                 ++eroded;
